@@ -22,10 +22,6 @@ open AcmedVerif.AcmeObj
 
 /-! ### Values -/
 
-def isNull : J → Bool
-  | .null => true
-  | _ => false
-
 /-- A string all of whose escapes decode. -/
 def isStr : J → Bool
   | .str raw => (decodeStr raw).isSome
@@ -42,7 +38,7 @@ def isUsize : J → Bool
     | _ => false
   | _ => false
 
-def orNull (p : J → Bool) (j : J) : Bool := isNull j || p j
+def orNull (p : J → Bool) (j : J) : Bool := j.isNull || p j
 
 def isList (p : J → Bool) : J → Bool
   | .arr xs => xs.all p
@@ -56,8 +52,7 @@ def decodesTo (raw : List Char) (names : List String) : Bool :=
 /-- One of the words, as a string or as `{"word": null}`; `c`: inside a challenge `{"word": {}}` too. -/
 def isWord (c : Bool) (names : List String) : J → Bool
   | .str raw => decodesTo raw names
-  | .obj [(k, .null)] => decodesTo k names
-  | .obj [(k, .obj [])] => c && decodesTo k names
+  | .obj [(k, v)] => decodesTo k names && (v.isNull || (c && v.isEmptyObj))
   | _ => false
 
 /-! ### Objects member by member -/
@@ -71,12 +66,15 @@ def occurrences (name : String) (ms : List (List Char × J)) : Nat :=
 
 def present (name : String) (ms : List (List Char × J)) : Bool := ms.any fun kv => keyOf kv == some name
 
+/-- One member: its key decodes and, if the struct knows the key, the value has the type `ok` demands. -/
+def memberOk (known : List String) (ok : String → J → Bool) (kv : List Char × J) : Bool :=
+  match keyOf kv with
+  | some key => !known.contains key || ok key kv.2
+  | none => false
+
 /-- Keys decodable, no known member twice, every known member has the type `ok` demands. -/
 def membersOk (known : List String) (ok : String → J → Bool) (ms : List (List Char × J)) : Bool :=
-  keysDecodable ms && known.all (fun n => occurrences n ms ≤ 1) &&
-  ms.all fun kv => match keyOf kv with
-    | some key => !known.contains key || ok key kv.2
-    | none => false
+  keysDecodable ms && known.all (fun n => occurrences n ms ≤ 1) && ms.all (memberOk known ok)
 
 /-- A struct given as an array: exactly one element per field, each of the field's type. -/
 def elementsOk : List (J → Bool) → List J → Bool
@@ -138,19 +136,19 @@ def tokenMemberOk (key : String) (v : J) : Bool :=
 
 def isTokenType (raw : List Char) : Bool := decodesTo raw ["http-01", "dns-01", "tls-alpn-01"]
 
-def notType (kv : List Char × J) : Bool := !(keyOf kv == some "type")
-
 /-- RFC 8555 §7.1.5/§8 as the code reads it: `rem` is the nesting budget left (128 for a text of its
-own, 126 inside an authorization).  A challenge of a type the code does not know is valid whatever
-else it holds (it becomes `Challenge::Unknown`). -/
+own, 126 inside an authorization).  Exactly one member is named `type`, a string; every other member —
+known or not — is fully readable (`strictOk`); if the type is one of the three the code knows, the other
+members form a token challenge (`url` and `token` present).  A challenge of another type is valid
+whatever else it holds (it becomes `Challenge::Unknown`).  Array notation: the type first. -/
 def validChallenge (rem : Nat) : J → Bool
   | .obj ms =>
     decide (2 ≤ rem) && keysDecodable ms && decide (occurrences "type" ms = 1) &&
-    (ms.all fun kv => if keyOf kv == some "type" then isStr kv.2 else strictOk (rem - 1) kv.2) &&
-    (match ms.find? (fun kv => keyOf kv == some "type") with
+    (ms.all fun kv => if isTypeKey kv then isStr kv.2 else strictOk (rem - 1) kv.2) &&
+    (match ms.find? isTypeKey with
      | some (_, .str raw) =>
        !isTokenType raw ||
-         (let rest := ms.filter notType
+         (let rest := ms.filter fun kv => !isTypeKey kv
           membersOk tokenFields tokenMemberOk rest && present "url" rest && present "token" rest)
      | _ => false)
   | .arr (.str raw :: rest) =>
